@@ -58,6 +58,9 @@ CASES = [
     ('api-split/offset-after-limit', 'api3', 'SELECT x FROM int3.te', dict(limit=1, offset=1, order_pos=[0], order_sql=' ORDER BY x'),
      'for an api-type integration LIMIT goes into the fetch while OFFSET stays in the sub-select, so the offset is applied after the limit',
      'query_planner.py:plan_api_db_select'),
+    ('api-split/select-list-reprojected', 'api3', 'SELECT x AS k, y + 1 AS m FROM int3.te', {},
+     'for an api-type integration a select list that renames or computes something (no aggregate / GROUP BY / DISTINCT) is evaluated in the fetch AND once more in the sub-select over the fetched dataframe, whose columns are already the renamed / computed ones: the sub-select refers to columns that no longer exist',
+     'query_planner.py:plan_api_db_select (query2 = Select(targets=query.targets, …); the outer SubSelectStep keeps the same targets)'),
 ]
 
 
@@ -69,7 +72,7 @@ def small_contents(rng, tables):
                    for _ in range(rng.choice([0, 1, 1, 2]))] for t in tables}
 
 
-IDS = list(range(1, 14)) + [15, 16, 14]
+IDS = list(range(1, 14)) + [15, 16, 14, 17]
 
 # signatures repaired in /repo (commit); their last witness is kept as a regression case
 FIXED = {'where/under-not': '8fa2a67', 'where/under-or-subselect': '1a1b62e', 'semi/right-full-join': '34967fc',
